@@ -35,7 +35,7 @@ def _logical_lines(toks):
 def scan_source(src):
     """-> dict category -> list of (line, text)"""
     toks = list(tokenize.generate_tokens(io.StringIO(src).readline))
-    hits = {"draw": [], "hash": [], "set_new": [], "dict_new": [], "sort": [], "hash_def": [], "import": [], "uninit": []}
+    hits = {"draw": [], "hash": [], "set_new": [], "dict_new": [], "sort": [], "hash_def": [], "order_def": [], "import": [], "uninit": []}
     aliases = set()
     lines = list(_logical_lines(toks))
     # pass 1: import lines -> extra watch words (names bound from a watched module)
@@ -92,6 +92,8 @@ def scan_source(src):
             if is_def:
                 if s in ("__hash__", "__eq__"):
                     hits["hash_def"].append((t.start[0], s))
+                if s in ("__lt__", "__le__", "__gt__", "__ge__", "__cmp__"):
+                    hits["order_def"].append((t.start[0], s))
                 continue
             if s in WATCH_WORDS or (s in aliases and not dotted_before and not is_kwarg):
                 # the module word itself inside a chain (np.random.rand) or a bound alias
@@ -182,6 +184,7 @@ def compare_tokens(census, hits):
         "dict_new": Counter((r["file"], r["line"]) for r in census["dicts"]),
         "sort": Counter((r["file"], r["line"]) for r in census["sorts"]),
         "hash_def": Counter((r["file"], r["line"]) for r in census["hash_defs"] if r["method"] != "@dataclass"),
+        "order_def": Counter((r["file"], r["line"]) for r in census.get("order_defs", []) if not r["method"].startswith("@")),
         "uninit": Counter((r["file"], r["line"]) for r in census["uninits"]),
     }
     for cat, rc in rows.items():
@@ -308,6 +311,32 @@ UNIT = [
     ("set-shadow-builtin", "def set(x):\n    return x\ndef f(a):\n    s = set(a)\n    for x in s:\n        pass\n", [], []),
 ]
 
+# (name, source, expected sort rows [(has_key, elems)], expected order_defs [method])
+UNIT_SORTS = [
+    ("sorted-guarded-axes", "def f(a, axes):\n    return sorted(ax + a.ndim if ax < 0 else ax for ax in axes)\n", [(False, "ElemsNumeric")], []),
+    ("sorted-renamed", "def f(a, axes):\n    return sorted(d + a.ndim if d < 0 else d for d in axes)\n", [(False, "ElemsNumeric")], []),
+    ("sorted-mod", "def f(n, dims):\n    return sorted([d % n for d in dims])\n", [(False, "ElemsUnknown")], []),     # str % x is formatting
+    ("sorted-len-mod", "def f(x, dims):\n    return sorted([len(x) % d for d in dims])\n", [(False, "ElemsNumeric")], []),
+    ("sorted-plus-ndim", "def f(a, dims):\n    return sorted(d + a.ndim for d in dims)\n", [(False, "ElemsNumeric")], []),
+    ("sorted-times-int", "def f(dims):\n    return sorted(d * 2 for d in dims)\n", [(False, "ElemsUnknown")], []),          # list * 2 is a list
+    ("sorted-range", "def f(n):\n    return sorted(range(n))\n", [(False, "ElemsNumeric")], []),
+    ("sorted-literals", "def f(a):\n    return sorted([3, 1, len(a), a.shape[0]])\n", [(False, "ElemsNumeric")], []),
+    ("sorted-bare-names", "def f(xs):\n    return sorted(x for x in xs)\n", [(False, "ElemsUnknown")], []),
+    ("sorted-name", "def f(params):\n    return sorted(params)\n", [(False, "ElemsUnknown")], []),
+    ("sorted-guard-not-first", "def f(xs, g):\n    return sorted(x if g and x < 0 else x for x in xs)\n", [(False, "ElemsUnknown")], []),
+    ("sorted-guard-eq", "def f(xs):\n    return sorted(x if x == 0 else x for x in xs)\n", [(False, "ElemsUnknown")], []),  # == never raises
+    ("sorted-guard-chain", "def f(xs, y):\n    return sorted(x if y < x < 0 else x for x in xs)\n", [(False, "ElemsUnknown")], []),
+    ("sorted-one-branch", "def f(a, xs):\n    return sorted(x + a.ndim if a else x for x in xs)\n", [(False, "ElemsUnknown")], []),
+    ("sorted-walrus", "def f(xs, o):\n    return sorted((x if x < 0 else (x := o)) for x in xs)\n", [(False, "ElemsUnknown")], []),
+    ("sorted-key", "def f(ps):\n    return sorted(ps, key=lambda p: p.name)\n", [(True, "ElemsUnknown")], []),
+    ("sorted-key-none", "def f(ps):\n    return sorted(ps, key=None)\n", [(False, "ElemsUnknown")], []),
+    ("list-sort", "def f(ps):\n    ps.sort()\n", [(False, "ElemsUnknown")], []),
+    ("list-sort-key", "def f(ps):\n    ps.sort(key=len, reverse=True)\n", [(True, "ElemsUnknown")], []),
+    ("np-sort", "import numpy as np\ndef f(a):\n    return np.sort(a)\n", [], []),
+    ("class-lt", "class A:\n    def __lt__(self, o):\n        return id(self) < id(o)\n", [], ["__lt__"]),
+    ("total-ordering", "from functools import total_ordering\n@total_ordering\nclass A:\n    def __le__(self, o):\n        return True\n", [], ["@total_ordering", "__le__"]),
+]
+
 UNIT_RAISES = [
     ("star-import", "from numpy.random import *\nx = rand(3)\n"),
     ("syntax-error", "def f(:\n"),
@@ -331,6 +360,16 @@ def unit_cases():
         got_u = sorted((r["var"], r["kind"]) for r in rows["set_uses"])
         if got_d != sorted(exp_draws) or got_u != sorted(exp_uses):
             mism.append({"unit": name, "expected": [sorted(exp_draws), sorted(exp_uses)], "got": [got_d, got_u]})
+    for name, src, exp_sorts, exp_orders in UNIT_SORTS:
+        try:
+            rows = G.FileCensus("unit.py", "synapgrad", src).run()
+        except Exception as ex:
+            mism.append({"unit": name, "raised": repr(ex)[:200]})
+            continue
+        got_s = sorted((r["has_key"], r["elems"]) for r in rows["sorts"])
+        got_o = sorted(r["method"] for r in rows["order_defs"])
+        if got_s != sorted(exp_sorts) or got_o != sorted(exp_orders):
+            mism.append({"unit": name, "expected": [sorted(exp_sorts), sorted(exp_orders)], "got": [got_s, got_o]})
     for name, src in UNIT_RAISES:
         try:
             G.FileCensus("unit.py", "synapgrad", src).run()
@@ -340,5 +379,5 @@ def unit_cases():
         except Exception as ex:
             mism.append({"unit": name, "expected": "Unclassifiable", "got": repr(ex)[:200]})
     # the token scan on the same snippets must find every non-alias draw the AST finds (and vice versa)
-    n = len(UNIT) + len(UNIT_RAISES)
+    n = len(UNIT) + len(UNIT_SORTS) + len(UNIT_RAISES)
     return n, n, mism
